@@ -158,7 +158,7 @@ theorem rel_fileRel : FileRel Rel where
       have := h.1 g
       exact ⟨this.inj, this.lookup, this.targets, this.current, this.nodes⟩, h.2⟩ }
   refl _ _ := ⟨id, fun _ h => h⟩
-  nodes d0 d n h hn := ⟨fun g => by
+  nodes d0 d n h hn _ := ⟨fun g => by
     have := h.1 g
     refine ⟨this.inj, this.lookup, this.targets, this.current, ?_⟩
     intro m hm c hc
